@@ -14,7 +14,11 @@ PLAN = dict(
              "(renaming-mu, known-ctor-case, unknown-data, crit-codata, crit-nonleaf = lifted, let-dtor, ...), the cases containing it; "
              "sem<k> = argument tuples on which the Core machine and the AxCut machine were compared",
         explanation="theorems (Props/C04.v): shrink_total, shrink_binding_chirality, known_cut_selects (ctor/dtor + substitution), "
-                    "critical_pair_order, lift_closed, shrink_ids_bounded, shrink_fresh_ids, lift_label_fresh, shrink_correct_partial (first-order integer fragment); correspondence: Model/Shrink.v output = "
+                    "critical_pair_order, lift_closed, shrink_ids_bounded, shrink_fresh_ids, lift_label_fresh, shrink_correct_partial (first-order integer fragment), "
+                    "shrink_correct_fragment2 (round 2: semantic preservation for the WHOLE language - calls, data/codata, continuations, known cuts, eta expansion, "
+                    "critical pairs, lifted statements - by a typed step-indexed simulation, on the boolean fragment frag2_prog && decls_ok of Sem/FsFrag2.v: "
+                    "identifiers with equal ids spelled alike, integer entry point, declared parameter/field types; tags proved-sem / unproved-sem of the run count the "
+                    "real inputs inside / outside it); correspondence: Model/Shrink.v output = "
                     "core2axcut::program::shrink_prog output on every case; executable property on the RUST output on every case: "
                     "Sem/AxCheck.check_prog (scoping, typing, clause order, closed lifted definitions), critical-pair side check, "
                     "Sem/CoreSem.run_fs on the focused input = Sem/AxSem.run_named on the Rust output for every argument tuple "
